@@ -94,17 +94,17 @@ impl BigNum {
     /// assert_eq!("-4321", b.to_string());
     /// ```
     pub fn new(n: isize) -> BigNum {
-        if n >= 0 {
-            BigNum {
-                pos: true,
-                val: vec![n as u32],
-            }
+        let m = if n >= 0 {
+            n as u64
         } else {
-            BigNum {
-                pos: false,
-                val: vec![(-n) as u32],
-            }
-        }
+            (-(n as i128)) as u64
+        };
+        let mut res = BigNum::from_vec(vec![
+            (m % (1u64 << 32)) as u32,
+            (m / (1u64 << 32)) as u32,
+        ]);
+        res.pos = n >= 0;
+        res
     }
 
     /// Makes new `BigNum` from vector
